@@ -348,6 +348,45 @@ impl SimChain {
         let f = self.frontiers_at(h)?;
         Some(ChainState::new(BlockHeight::from_u32(h), BlockHash(self.hash_at(h)?), f.sap.clone(), f.orch.clone(), f.iron.clone()))
     }
+    /// The roots of the 2^16-leaf subtrees of pool `p` completed by the current chain's blocks up to `upto`, in index
+    /// order: (subtree index, height of the completing block, root). Computed from the generator's own frontiers by
+    /// replaying the completing block's commitments one at a time (what a server derives from the full chain).
+    pub fn completed_subtrees(&self, p: Pool, upto: u32) -> Vec<(u64, u32, [u8; 32])> {
+        use incrementalmerkletree::Level;
+        let mut out = vec![];
+        let mut prev = self.base.clone();
+        for b in &self.blocks {
+            if b.height > upto {
+                break;
+            }
+            let before = prev.size(p);
+            let after = b.after.size(p);
+            // does a multiple of 2^16 fall into (before, after]?
+            let mut next_end = (before >> 16) + 1 << 16;
+            if next_end <= after && before < next_end {
+                let mut sap = prev.sap.clone();
+                let mut orch = if p == Pool::Ironwood { prev.iron.clone() } else { prev.orch.clone() };
+                let mut size = before;
+                for cm in &b.cms[p.i()] {
+                    match p {
+                        Pool::Sapling => append_sap(&mut sap, cm),
+                        _ => append_orch(&mut orch, cm),
+                    }
+                    size += 1;
+                    if size == next_end {
+                        let root: [u8; 32] = match p {
+                            Pool::Sapling => sap.value().expect("non-empty").root(Some(Level::from(16))).to_bytes(),
+                            _ => orch.value().expect("non-empty").root(Some(Level::from(16))).to_bytes(),
+                        };
+                        out.push(((next_end >> 16) - 1, b.height, root));
+                        next_end += 1 << 16;
+                    }
+                }
+            }
+            prev = b.after.clone();
+        }
+        out
+    }
     pub fn pool_active(&self, p: Pool, h: u32) -> bool {
         let act = match p {
             Pool::Sapling => self.net.sapling,
